@@ -129,7 +129,8 @@ def bsp(a, b):
     assert np.array_equal(b % 2, b), 'BSF {} is not in binary form'.format(b)
     # let A = (A1|A2) and B = (B1|B2) return (A2|A1).(B1|B2)
     a1, a2 = np.hsplit(a, 2)
-    return np.hstack((a2, a1)).dot(b) % 2
+    # note: cast to int so that bool arrays are multiplied arithmetically (a bool dot is a logical or, which loses parity)
+    return np.hstack((a2, a1)).astype(int, copy=False).dot(b) % 2
 
 
 def ipauli(n_qubits, min_weight=0, max_weight=None):
